@@ -753,13 +753,14 @@ def record_after_partial_line(ctx, rid):
     if not parse or not ew:
         raise AnchorError("Meta::parse / ends_with not found in %s" % C.key)
     # the pending-head buffer: a String (other than the read buffer itself) onto which text from the read buffer is appended
-    reads = ba.calls(r".*::read_line")
+    reads = ba.calls(r".*::read_(line|until)")
     bufs = set()
     for r_ in reads:
         a = C.blocks[r_]["term"]["args"]
-        if len(a) > 1 and op_local(a[1]) is not None:
-            bufs.add(ba.base_local_of_ref(op_local(a[1])))
-    lt = taint(C, seeds=bufs, mode="direct")
+        if len(a) > 1 and op_local(a[-1]) is not None:       # read_line(r, buf) / read_until(r, delim, buf)
+            bufs.add(ba.base_local_of_ref(op_local(a[-1])))
+    # (bytes read with read_until become the line through a lossy UTF-8 conversion: the same text)
+    lt = taint(C, seeds=bufs, mode="direct", through=re.compile(r"alloc::string::String::from_utf8(_lossy|_unchecked)?|alloc::borrow::Cow::<'_, B>::into_owned|alloc::borrow::Cow::.*into_owned|core::result::Result::<T, E>::(unwrap|expect|unwrap_or_default)"))
     heads = set()
     for i in ba.calls(r"alloc::string::String::push_str"):
         a = C.blocks[i]["term"]["args"]
@@ -1004,8 +1005,8 @@ def follower_reads_after_probe(ctx, rid):
     ba = BA.of(b)
     # the probe: the helper, or (inlined) a non-blocking try_lock on a lock made for the purpose
     probes = ba.calls(r"@bin::log::is_locked") + ba.calls(r"state::Lock::try_lock")
-    reads = ba.calls(r".*::BufRead(>)?::read_line|.*::read_line|std::fs::File::open")
-    rl = [i for i in reads if any(q.endswith("read_line") for q in callee_paths(b.blocks[i]["term"]))]
+    reads = ba.calls(r".*::BufRead(>)?::read_(line|until)|.*::read_(line|until)|std::fs::File::open")
+    rl = [i for i in reads if any(q.endswith("read_line") or q.endswith("read_until") for q in callee_paths(b.blocks[i]["term"]))]
     # "there is no reader" (no log file yet) is decided by the open attempt of the same iteration; the None side of
     # `if let Some(f) = reader.as_mut()` can only be taken behind it
     for sw in sorted(ba.live):
@@ -1766,23 +1767,61 @@ def add_dep_replaces_unconditionally(ctx, rid):
     prog = ctx.prog
     ad = prog.one(r"state::File::add_dep")
     ba = BA.of(ad)
-    reads = ba.calls(r"rusqlite::Connection::(query_row|prepare|prepare_cached|query_row_and_then)|rusqlite::Statement::.*|rusqlite::(statement::)?Statement(<.*>)?::(query|query_map|query_row|exists)")
-    # reading the *source's* record (File::from_name) is how the edge's other end is found; a direct query in add_dep is a look at Deps
+    from rules.C06 import backward_direct
+
+    def sql_of(i):
+        """the SQL literal handed to the call at block i (an operand, or a local holding the constant), else None"""
+        for a in ad.blocks[i]["term"]["args"]:
+            txt = const_str(a)
+            la = op_local(a)
+            if txt is None and la is not None:
+                sl, org, _ = backward_direct(ad, la, depth=12)
+                for x in [la] + sorted(sl):
+                    d = ba.single_def(x)
+                    if d and d[0] == "stmt" and d[3]["k"] == "use" and const_str(d[3]["op"]):
+                        txt = const_str(d[3]["op"])
+                        break
+            if txt and re.search(r"\b(select|insert|update|delete|replace)\b", txt, re.I):
+                return txt
+        return None
+    def on_deps(i, unknown):
+        t_ = sql_of(i)
+        return unknown if t_ is None else re.search(r"\bdeps\b", t_, re.I) is not None
+    # (finding the record of the *source* - File::from_name, possibly written out in place - queries table Files, not the
+    # edges; a query whose text is assembled at run time is not judged here: the flow rule below decides)
+    reads = [i for i in ba.calls(r"rusqlite::Connection::(query_row|prepare|prepare_cached|query_row_and_then)|rusqlite::Statement::.*|rusqlite::(statement::)?Statement(<.*>)?::(query|query_map|query_row|exists)")
+             if on_deps(i, False)]
     ctx.ob(rid, "%s|reads-no-existing-edge" % ad.key, not reads, where=ctx.where(ad, reads[0]) if reads else ad.span,
            detail="add_dep issues no query of its own" if not reads else "add_dep looks at an existing row before writing: what it finds there (possibly last build's edge) can override the declared mode")
     modes = [p_ for p_ in range(1, ad.arg_count + 1) if "DepMode" in ad.locals[p_]]
-    ws = ba.calls(r"state::ProcessTransaction::write")
+    ws = [i for i in ba.calls(r"state::ProcessTransaction::write") if on_deps(i, True)]
     if not modes or not ws:
         raise AnchorError("%s: mode parameter / write statement of %s not located" % (rid, ad.key))
-    mt = taint(ad, seeds=set(modes), mode="direct")
-    okw = []
+    okw, why = [], ""
     for w in ws:
         t = ad.blocks[w]["term"]
-        hit = any(op_local(a) is not None and (op_local(a) in mt or any(x in mt for x in ba.ref_chain(op_local(a), depth=14))) for a in t["args"])
-        okw.append(hit)
+        sl = set()
+        for a_ in t["args"]:
+            if op_local(a_) is not None:
+                sl |= backward_direct(ad, op_local(a_), depth=200)[0]
+        mls = [x for x in sl if "DepMode" in ad.locals[x]]
+        hit = any(x in modes for x in mls)
+        pure = True
+        for x in mls:
+            if x in modes:
+                continue
+            for d in ba.defs.get(x, []):
+                if d[0] == "call":
+                    tt = d[2]
+                    from core import IDENTITY_CALLS
+                    if not any(IDENTITY_CALLS.fullmatch(q) for q in callee_paths(tt)):
+                        pure, why = False, "computed by %s" % common.short(callee_paths(tt)[0])
+                elif d[0] == "stmt" and (d[3]["k"] == "agg" or (d[3]["k"] == "use" and op_const(d[3]["op"]) is not None)):
+                    pure, why = False, "a constant mode can be stored instead of the declared one"
+        okw.append(hit and pure)
     ctx.ob(rid, "%s|stored-mode-is-the-declared-mode" % ad.key, all(okw), where=ctx.where(ad, ws[0]),
-           detail="the mode parameter itself is what the insert stores" if all(okw) else "the stored mode is not the parameter itself (computed from something else, e.g. the row of an earlier build)")
-
+           detail="the mode parameter itself, and nothing else, is what the insert stores" if all(okw) else
+           "the stored mode is not (only) the parameter: %s - e.g. the mode of the row an earlier build left behind" % (why or "the parameter does not reach the statement"))
 
 # ------------------------------------------------------------------------------------------------
 # R5.18 / R4.12 / R10.15  a failure decided anywhere in record_new_state is recorded as one
@@ -1851,6 +1890,28 @@ def schema_created_inside_transaction(ctx, rid):
         ctx.ob(rid, "%s|ddl#%d|runs-inside-the-start-up-transaction" % (I.key, n), via_tx, where=ctx.where(I, c),
                detail="executed through the Transaction" if via_tx else "a schema statement is executed on the connection itself: it commits on its own, ahead of the version row")
     ctx.floor(rid, "schema statements in init", n, 1)
+
+
+# ------------------------------------------------------------------------------------------------
+# R18.15 (F-AK)  script output is bytes: reading the log must not depend on it being UTF-8
+
+def log_read_tolerates_any_bytes(ctx, rid):
+    ctx.rule(rid, "redo-log reads the per-target log with a primitive that accepts any bytes (read_until / read / fill_buf, converted lossily): BufRead::read_line, lines(), read_to_string and String::from_utf8(..)? fail on a line that is not valid UTF-8 - a Latin-1 compiler message - and end the view, so that every later line of the build is missing live and in the replay while redo exits 0")
+    prog = ctx.prog
+    b = prog.one(r"@bin::log::LogState::catlog")
+    ba = BA.of(b)
+    strict = ba.calls(r".*::read_line|.*BufRead>?::lines|std::io::BufRead::lines|.*::read_to_string|std::io::read_to_string")
+    tolerant = ba.calls(r".*::read_until|.*BufRead>?::fill_buf|.*::read_to_end|(<.* as )?std::io::Read>?::read|.*BufRead>?::split")
+    ctx.floor(rid, "reads of the log in the follower", len(strict) + len(tolerant), 1)
+    ctx.ob(rid, "%s|log-read-accepts-any-bytes" % b.key, not strict and bool(tolerant), where=ctx.where(b, (strict or tolerant or [0])[0]),
+           detail="the log is read as bytes (%s)" % common.short(callee_paths(b.blocks[tolerant[0]]["term"])[0]) if not strict and tolerant else
+           "the log is read with %s, which fails on a line that is not valid UTF-8" % common.short(callee_paths(b.blocks[strict[0]]["term"])[0]) if strict else "no read of the log found")
+    # and the conversion that follows is the lossy one (a checked conversion whose error is propagated is the same failure)
+    checked = [i for i in ba.calls(r"alloc::string::String::from_utf8|core::str::converts::from_utf8|core::str::from_utf8")]
+    lossy = ba.calls(r"alloc::string::String::from_utf8_lossy")
+    if tolerant and not strict:
+        ctx.ob(rid, "%s|bytes-become-text-lossily" % b.key, bool(lossy) and not checked, where=ctx.where(b, (checked or lossy or tolerant)[0]),
+               detail="invalid sequences are substituted, never an error" if lossy and not checked else "the bytes read are converted with a checked from_utf8: an invalid sequence is an error again")
 
 
 _BORROW_CACHE = {}
@@ -1934,7 +1995,7 @@ TABLE = {
     "C17": [("R17.6", ood_lists_every_nonclean), ("R17.7", check_never_refreshes_stamps), ("R17.9", listing_never_creates_state)],
     "C18": [("R18.7", done_status_type_agrees), ("R18.8", seen_only_when_shown), ("R18.9", record_after_partial_line),
             ("R18.10", record_names_relative_to_target_dir), ("R18.11", non_record_line_echoed_whole),
-            ("R18.12", follower_reads_after_probe), ("R18.13", parse_keeps_text_verbatim), ("R18.14", record_content_never_panics)],
+            ("R18.12", follower_reads_after_probe), ("R18.13", parse_keeps_text_verbatim), ("R18.14", record_content_never_panics), ("R18.15", log_read_tolerates_any_bytes)],
     "C15": [("R15.7", key_never_bypasses_relpath), ("R15.8", relpath_is_componentwise)],
     "C10": [("R10.12", borrow("C04", "R4.4", r"tmp-name|same-tmp", "the stale-output removal before the fork must name the same file the script will be told to write ($3, beside the target): removing another path leaves the half-written output of a killed build in place, to be taken for this build's output")),
             ("R10.8", rename_inside_result_transaction), ("R10.14", schema_created_inside_transaction), ("R10.13", tmp_removal_copes_with_directory), ("R10.10", interrupted_creation_is_recoverable), ("R10.11", failed_marker_not_cleared_at_start),
